@@ -49,6 +49,13 @@ SOLVER_NOTE = TB + ('the objective is an oracle (arbitrary stream of finite valu
                     '(reals, non-NaN binary64); depq.DEPQ modelled as a stable descending list; pow() results taken from the implementation\'s own calls; '
                     'the evolvent, scipy and listeners are outside this model.')
 CHECKS.update({
+    'C15': dict(
+        text='Theorems on a store model: an evaluation whose only write is the supplied holder delivers a value that does not depend on any earlier evaluation, returns the holder, leaves the point and every other cell untouched. '
+             'The hypothesis is a source fact re-read on every run (reflexivity): along the whole evaluation path of every shipped problem (Calculate and what it calls, incl. GKLSFunction / GrishaginFunction) nothing is assigned '
+             'but local names and the holder value, the holder is returned, no class-/module-level mutable state. History-differential runs over all families: random interleavings of constructions and evaluations, '
+             'several live instances, argument buffers reused and mutated in place, each value compared bit-for-bit with a fresh instance evaluated once.',
+        design='5 C15', note=TB + 'numpy view aliasing cannot be exhibited by the Gallina store model: covered by the differential runs only (partial).',
+        technique='Rocq frame theorem + syntactic write-set facts from the source + history-differential runs'),
     'C10': dict(
         text='Proved once (Coq, reals): Rastrigin and XSquared in EVERY dimension have value 0 at the origin, no lower point and no other minimiser; the generic Hill and Shekel functions are differentiable with the stated derivatives. '
              'Per instance, regenerated from the Calculate sources and tables on every run (closed forms obtained by symbolic evaluation of the source, tied by reflexivity to the generic family on that table): '
